@@ -121,7 +121,13 @@ def jobs(tier):
     if tier != "quick":
         archs += [(2, 1, 2), (1, 3, 3), (2, 3, 3), (3, 2, 2), (3, 1, 2), (4, 1, 1), (4, 2, 1), (3, 3, 2), (1, 4, 4), (3, 1, 3), (4, 3, 1)]
     out = [dict(name="dm-%d-%d-%d" % t, module="checks.c02", scenario="scenario", kwargs=dict(n=t[0], h=t[1], a=t[2])) for t in archs]
+    for j in out:
+        j["opts"] = dict(extreme=dict(scale=8.0, points=2))
     out.sort(key=lambda j: -(4 ** j["kwargs"]["n"]) * (4 ** j["kwargs"]["a"]) * (2 ** j["kwargs"]["h"]))
+    # "... the probabilities the model reports AND SAMPLES FROM": the one-step kernel assembled from the probability tensors the
+    # real sampler hands to torch.bernoulli is in detailed balance with the diagonal (scenario shared with C05)
+    for t in [(1, 1, 1), (2, 1, 2)] + ([(2, 2, 2), (3, 2, 1)] if tier != "quick" else []):
+        out.append(dict(name="samples-from-diagonal-%d-%d-%d" % t, module="checks.c05", scenario="kernel", kwargs=dict(kind="mixed", n=t[0], h=t[1], a=t[2])))
     return out
 
 
